@@ -3,12 +3,16 @@
 #[derive(Clone, Debug)]
 pub struct Rng {
     state: u64,
+    /// "large case" flag: set by a monitor for a fraction of the thorough-tier cases; generators
+    /// consult it to draw bigger shapes (deeper trees, more dimensions, longer histories)
+    pub big: bool,
 }
 
 impl Rng {
     pub fn new(seed: u64) -> Rng {
         let mut r = Rng {
             state: seed ^ 0x9E37_79B9_7F4A_7C15,
+            big: false,
         };
         r.u64();
         r
